@@ -1469,7 +1469,7 @@ Section Commit.
     Hypothesis VS1 : i_vs i0 = [h].
     Hypothesis Absent : forall x, under Mo x = true -> lookup t0 x = None.
 
-    Lemma install_no : install c i = write_new_object c.
+    Lemma install_no : install c i = (stage_object_declaration c i ;; write_new_object c).
     Proof. unfold install, inv_is_new. change (i_vs i) with (i_vs i0). now rewrite VS1. Qed.
 
     Definition tnewo : tree := w_tree (snd (commit c (w0 NoInj))).
@@ -1511,35 +1511,39 @@ Section Commit.
       destruct PH as (-> & J1 & W1). rewrite mid_unfold. destruct (w_closed w1) eqn:C.
       { exfalso. destruct (closed_needs_stop j u wa _ w1 EA EP C) as [n Y]. now apply NS in Y. }
       destruct (prefix_world j u wa w1 EA EP C) as [PX PJ].
-      rewrite install_no.
-      pose proof (H_write_new_object (w_tree w1) J1 w1 W1 (NI_t1 (w_tree w1) J1 Absent)) as HI.
-      destruct (write_new_object c w1) as [[u2|e|] w2] eqn:EI; cbn [fst snd] in HI; destruct HI as (W2 & _ & R2).
+      destruct (install c i w1) as [r2 w2] eqn:EI.
+      assert (EI' := EI). rewrite install_no in EI'. unfold andthen, bind in EI'.
+      pose proof (keeps_stage_object_declaration w1 W1 J1) as HS.
+      destruct (stage_object_declaration c i w1) as [[u1|e1|] w1s] eqn:ES; cbn [fst snd] in HS; destruct HS as (W1s & _ & J1s).
+      2: { injection EI' as <- <-. left. destruct J1s as [J1s _]. split.
+           - apply (attempt_then_tree Base). { apply unlock_preserves_Base. } { apply pres_throw. } exact (JP_Base _ _ J1s).
+           - destruct (attempt_throw_res (unlock c) e1 w1s) as [Y|Y]; rewrite Y; reflexivity. }
+      2: { injection EI' as <- <-. left. destruct J1s as [J1s _]. split; [exact (JP_Base _ _ J1s) | reflexivity]. }
+      pose proof (H_write_new_object (w_tree w1s) J1s w1s W1s (NI_t1 (w_tree w1s) J1s Absent)) as HI.
+      rewrite EI' in HI. cbn [fst snd] in HI. destruct HI as (W2 & _ & R2).
+      destruct r2 as [u2|e|].
       - right. right. exists (w_tree w2). split; [|split; [|split]].
         + apply (tail_preserves Mo (w_tree w2) (under_refl _) w2). intros x _. reflexivity.
         + (* the fault-free run goes through the same installation *)
-          unfold tnewo. rewrite commit_unfold_X, PX, mid_unfold. cbn [disarm w_closed]. rewrite C, install_no.
-          destruct (nice_write_new_object c _ _ _ EI) as (N1 & N2 & N3 & N4 & N5 & N7 & N8 & N6).
+          unfold tnewo. rewrite commit_unfold_X, PX, mid_unfold. cbn [disarm w_closed]. rewrite C.
+          destruct (nice_install c i _ _ _ EI) as (N1 & N2 & N3 & N4 & N5 & N7 & N8 & N6).
           destruct (w_inj w2) eqn:I2.
-          * (* the event has happened or there was none *)
-            destruct (w_inj w1) eqn:I1.
+          * destruct (w_inj w1) eqn:I1.
             -- rewrite (disarm_noinj w1 I1), EI. apply (tail_preserves Mo (w_tree w2) (under_refl _) w2). intros x _. reflexivity.
-            -- exfalso. destruct (FE_write_new_object c _ _ _ EI) as [e [Y _]]; [now rewrite I1 | exact I2 | discriminate].
+            -- exfalso. destruct (FE_install c i _ _ _ EI) as [e [Y _]]; [now rewrite I1 | exact I2 | discriminate].
             -- exfalso. destruct (N3 n eq_refl) as [n' Y]. congruence.
-            -- exfalso. specialize (PJ eq_refl) || idtac. clear PJ.
-               destruct (prefix_world j u wa w1 EA EP C) as [_ _].
-               (* a stop request is pending at w1: excluded *)
-               pose proof (X_of j u wa _ w1 EA EP) as EX.
+            -- exfalso. pose proof (X_of j u wa _ w1 EA EP) as EX.
                destruct (nice_X _ _ _ EX) as (_ & _ & _ & _ & _ & M7 & _ & _).
                destruct (M7 NS) as [_ NS1]. now apply (NS1 n).
           * rewrite (N6 eq_refl) by discriminate. apply (tail_preserves Mo (w_tree w2) (under_refl _) (disarm w2)). intros x _. reflexivity.
           * rewrite (N6 eq_refl) by discriminate. apply (tail_preserves Mo (w_tree w2) (under_refl _) (disarm w2)). intros x _. reflexivity.
           * rewrite (N6 eq_refl) by discriminate. apply (tail_preserves Mo (w_tree w2) (under_refl _) (disarm w2)). intros x _. reflexivity.
-        + exact (NObjPost_CS_M (w_tree w1) J1 _ R2).
-        + destruct R2 as [R2 _]. rewrite R2. apply (Pts_l6 _ _ _ J1). cbn. auto 10.
-      - right. left. exists (w_tree w1). split; [exact J1 | split].
-        + apply (attempt_then_tree (NI (w_tree w1))). { apply unlock_preserves_NI. } { apply pres_throw. } exact (proj1 R2).
+        + exact (NObjPost_CS_M (w_tree w1s) J1s _ R2).
+        + destruct R2 as [R2 _]. rewrite R2. apply (Pts_l6 _ _ _ J1s). cbn. auto 10.
+      - right. left. exists (w_tree w1s). split; [exact J1s | split].
+        + apply (attempt_then_tree (NI (w_tree w1s))). { apply unlock_preserves_NI. } { apply pres_throw. } exact (proj1 R2).
         + destruct (attempt_throw_res (unlock c) e w2) as [Y|Y]; rewrite Y; reflexivity.
-      - right. left. exists (w_tree w1). split; [exact J1 | split; [exact (proj1 R2) | reflexivity]].
+      - right. left. exists (w_tree w1s). split; [exact J1s | split; [exact (proj1 R2) | reflexivity]].
     Qed.
 
     Lemma no_facts j :
